@@ -211,8 +211,9 @@ func (ex *Exec) newObject(hint string) Term {
 	c := ex.c
 	a := c.declConst(c.fresh(ex.nm("alloc_"+hint)), SRef)
 	ts := []Term{app(">", a, "0"), eq(app("ftag", a), "0"), eq(app("froot", a), a), app("isfresh", a)}
-	for _, o := range *ex.top.allocs {
-		ts = append(ts, not(eq(a, o)))
+	// allocation sites are totally ordered (hence pairwise distinct) — linear size
+	if n := len(*ex.top.allocs); n > 0 {
+		ts = append(ts, app(">", a, (*ex.top.allocs)[n-1]))
 	}
 	for _, k := range ex.top.known {
 		ts = append(ts, not(eq(a, k)), not(eq(a, app("froot", k))))
